@@ -166,3 +166,21 @@ package auth
 //@   modifies everything
 //@   sink [C02] code_cipher_keyed_with_the_whole_session_key: NewMiscreantCipher requires called(@DecodeString#1) && @DecodeString#1.1 == nil && arg(@DecodeString#1, 1) == sessionConfig.Key && $arg0 == @DecodeString#1.0
 //@   sink [C02] cookie_cipher_keyed_with_the_whole_cookie_secret: CreateMiscreantCookieCipher requires called(@DecodeString#2) && @DecodeString#2.1 == nil && arg(@DecodeString#2, 1) == sessionConfig.CookieConfig.Secret && $arg0 == @DecodeString#2.0
+
+// ---- C09 / C11: every authenticator is given exactly the configured email rule -------------------------------------
+// Summaries without postconditions keep NewAuthenticatorMux's paths few; they claim nothing.
+//@ func NewAuthenticator(config Configuration, optionFuncs ...func(*Authenticator) error) (*Authenticator, error)
+//@   modifies everything
+//@ func newProvider(pc ProviderConfig, sc SessionConfig) (providers.Provider, error)
+//@   modifies everything
+//@ func loadFSHandler() (http.Handler, error)
+//@   modifies everything
+
+// A = the configured address list, D = the configured domain list. The rule is built before the router is created
+// (one validator: addresses if any are configured, else domains) and that very list is what each authenticator gets.
+//@ func NewAuthenticatorMux(config Configuration, statsdClient *statsd.Client) (*AuthenticatorMux, error)
+//@   modifies everything
+//@   let A = config.AuthorizeConfig.EmailConfig.Addresses
+//@   let D = config.AuthorizeConfig.EmailConfig.Domains
+//@   sink [C09 C11] email_rule_built_from_the_configuration: UseEncodedPath requires len(v) == 1 && (len(A) != 0 ==> typeis(v[0], "pkg/validators.EmailAddressValidator") && called(@NewEmailAddressValidator#1) && arrof(arg(@NewEmailAddressValidator#1, 0)) == arrof(A) && len(arg(@NewEmailAddressValidator#1, 0)) == len(A)) && (len(A) == 0 ==> typeis(v[0], "pkg/validators.EmailDomainValidator") && called(@NewEmailDomainValidator#1) && arrof(arg(@NewEmailDomainValidator#1, 0)) == arrof(D) && len(arg(@NewEmailDomainValidator#1, 0)) == len(D))
+//@   sink [C09 C11] authenticators_get_that_rule_and_nothing_else: SetValidators requires arrof($arg0) == arrof(v) && len($arg0) == len(v) && len(v) == 1
